@@ -78,6 +78,17 @@ class C15Executor(Executor):
     def attrs(self, st):
         return dict(st.ghost.get("modattrs", {}))
 
+    _suppress_cache = None
+
+    def s_With(self, s, st):
+        # `with contextlib.suppress(E): body` is executed as `try: body  except E: pass` (round 8)
+        if self._suppress_cache is None:
+            self._suppress_cache = {}
+        if id(s) not in self._suppress_cache:
+            self._suppress_cache[id(s)] = (s, O.suppress_as_try(self.module.imports, s))
+        t = self._suppress_cache[id(s)][1]
+        return self.s_Try(t, st) if t is not None else super().s_With(s, st)
+
     def b_getattr(self, st, args, kwargs, node):
         if len(args) >= 2 and isinstance(args[0], VExt) and args[0].sort == "PyModule" and isinstance(args[1], VStr) and args[1].const() is not None:
             key = (args[0].t.get_id(), args[1].const())
